@@ -355,6 +355,21 @@ func checkC04(R *Run) {
 	R.floor("login-gate", 4)
 
 	R.ruleAuthShape()
+	R.ruleManagerStoresGiven()
+	// login-once: one login attempt per connection
+	R.rule("login-once", "the Authenticate call of the login sequence is not inside a loop: a connection whose first transaction carried wrong credentials gets its error reply and is closed, it cannot try again (or pipeline further transactions) on the same connection")
+	if fn := R.mustFn("(*hotline.Server).handleNewConnection"); fn != nil {
+		nAuth := 0
+		for _, ci := range callsIn(fn) {
+			if calleeName(ci.Common()) == "(*hotline.ClientConn).Authenticate" {
+				nAuth++
+				R.check(!inLoop(ci.Block()), "login-once", fmt.Sprintf("%s: Authenticate #%d", fname(fn), nAuth), P.ipos(ci), "outside any loop", "the credentials check sits in a loop: after a refused login the same connection is read again and a later transaction can log it in")
+			}
+		}
+		if nAuth == 0 {
+			R.und("login-once", fname(fn), P.pos(fn.Pos()), "no Authenticate call found in the login sequence")
+		}
+	}
 
 	// ---- login-args
 	{
